@@ -5,7 +5,7 @@
    parser + terminal-side store, written from the protocol document) holds of
    the IMPLEMENTATION's bytes. *)
 From Coq Require Import List NArith Bool.
-From SNT Require Import Base.Report Surface.Shape Image.Kitty Image.KittySpec.
+From SNT Require Import Base.Report Surface.Shape Image.Kitty Image.KittySpec Image.Fnv.
 Import ListNotations.
 Local Open Scope N_scope.
 
@@ -54,9 +54,14 @@ Definition c11_code (c : c11_case) : N :=
   | Case _ imgs contents ops impl => check_history contents track0 (map (spec_op imgs) ops) impl
   end.
 
+(* the content hash the crate computed for every image is the one the model of Surface::hash computes *)
+Definition hashes_agree (imgs : list c11_img) : bool :=
+  forallb (fun e : c11_img => let '(im, h, _) := e in surface_hash im =? h) imgs.
+
 Definition c11_check (c : c11_case) : bool * bool :=
   match c with
-  | Case _ _ _ _ impl => (list_eqb out_eqb (c11_model c) impl, c11_code c =? 0)
+  | Case _ imgs _ _ impl =>
+      (list_eqb out_eqb (c11_model c) impl && hashes_agree imgs, c11_code c =? 0)
   end.
 
 Definition c11_report := report c11_check.
